@@ -150,6 +150,8 @@ def show(v, depth=0):
         return 'cast:%s(%s)' % (v[1], show(v[2], d))
     if k == 'havoc':
         return 'havoc(%s)' % show(v[2], d)
+    if k == 'overlay':
+        return '%s with {%s}' % (show(v[1], d), ', '.join('%s: %s' % ('.'.join(str(e[1]) for e in sub), show(x, d)) for sub, x in v[2]))
     if k == 'index':
         return '%s[%s]' % (show(v[1], d), show(v[2], d))
     return '%s' % (v,)
@@ -241,6 +243,13 @@ class Interp:
         return (root, path)
 
     def _project(self, st, v, e):
+        if v[0] == 'overlay':
+            exact = [x for sub, x in v[2] if sub == (e,)]
+            if exact:
+                return exact[0]
+            deeper = tuple((sub[1:], x) for sub, x in v[2] if len(sub) > 1 and sub[0] == e)
+            base = self._project(st, v[1], e)
+            return ('overlay', base, deeper) if deeper else base
         if e[0] == 'f':
             name = e[1]
             if v[0] == 'agg':
@@ -281,6 +290,10 @@ class Interp:
             v = ('deref', root[1])
         for e in path:
             v = self._project(st, v, e)
+        # field-wise writes recorded in the heap below this place: overlay them on the base value
+        ovs = [(k[1][len(path):], x) for k, x in st.heap.items() if k[0] == root and len(k[1]) > len(path) and k[1][:len(path)] == path]
+        if ovs:
+            v = ('overlay', v, tuple(sorted(ovs, key=repr)))
         return v
 
     def _write_lv(self, st, lv, v, fn, bb, frame):
@@ -349,7 +362,16 @@ class Interp:
                     it = Interp(self.facts, max_paths=50)
                     ps = it.run(pf)
                     if len(ps) == 1 and ps[0].outcome[0] == 'return':
-                        return ps[0].outcome[1]
+                        r = ps[0].outcome[1]
+                        if r[0] == 'ref' and r[1][0][0] == 'local':
+                            # `&CONST`: re-home the referent in this state's heap under a synthetic pointer
+                            sub = State()
+                            sub.env, sub.heap = ps[0].env, ps[0].heap
+                            val = it._read_lv(sub, r[1])
+                            key = (('ptr', ('promoted', fn.defp, v[1])), ())
+                            st.heap[key] = val
+                            return ('ref', key, False)
+                        return r
             except Exception:
                 pass
             return ('unk', 'promoted')
@@ -652,6 +674,10 @@ def subvalues(v, depth=0):
             yield from subvalues(root[1], depth + 1)
         if len(v) > 3:
             yield from subvalues(v[3], depth + 1)
+    elif k == 'overlay':
+        yield from subvalues(v[1], depth + 1)
+        for _, x in v[2]:
+            yield from subvalues(x, depth + 1)
     elif k in ('field', 'deref', 'as', 'discr', 'havoc'):
         yield from subvalues(v[1] if k != 'havoc' else v[2], depth + 1)
     elif k == 'index':
